@@ -73,6 +73,15 @@ class CallGraph:
                 out.append(fid)
         return out
 
+    def callers_of(self, fid):
+        """ids of the functions (closures mapped to their owning fn) with an edge to `fid`"""
+        out = set()
+        for a, bs in self.edges.items():
+            if fid in bs:
+                o = self.owner_fn(a)
+                out.add(o["id"] if o else a)
+        return out
+
     def reachable(self, roots):
         seen = {}
         dq = collections.deque()
